@@ -21,6 +21,17 @@ Binding A
     (codepoint / html-ascii / UCA URIs, the locale active for LC_COLLATE at run time, 'C', 'POSIX', 'C.utf8',
     unknown, empty), are made TWICE in a row in one process, and once more through default_collation; a
     collation lock left held after a legal return is a failure of its own (kind lock-held);
+  * CALL FORMS of ArgClass.tla: every function of the live table (fn:concat at arities 2..5) reached through the
+    arrow operator, a named reference, a let-bound reference, partial application (first / last argument),
+    fn:apply, fn:function-lookup, and the same with one argument too many;
+  * STATIC CONTEXTS of ArgClass.tla: predeclared prefixes re-bound / unbound / aliased and default function
+    namespaces x the spelling of the name (prefixed, unprefixed, EQName) x ok / too many / too few / zero
+    arguments / unknown name;
+  * the description paths of every outcome: str() and repr() of the error and of its token, .source / .tree /
+    str() / repr() of the root token must not raise anything else either;
+  * spec/AtomicPool.tla: every atomic type (and NaN / INF / -0) as map key, array member, set operand, in
+    distinct-values / index-of / deep-equal / sort / min / max, as function argument, and every PAIR of types in
+    comparisons, arithmetic, two-key maps;
   * the PUMP family of Tokens.tla: head unit^n mid post^n tail for n in {1, 30, 200} (unterminated string
     literals of both quote kinds, comments, digit / dot / name / exponent runs, nesting, long prefixes ...):
     10 s watchdog, and for pumps with inv = TRUE the outcome class must not depend on n;
@@ -74,9 +85,9 @@ SOURCE_TEXT = {
 
 TIERS = {
     'quick': dict(token_runs=[('all3', 'all', 3)], expr_thin=12, rep_thin=6,
-                  life=dict(Instances={1, 2}, MaxCalls=3), trace_versions=['3.1'], max_dev=1),
+                  life=dict(Instances={1, 2}, MaxCalls=3), trace_versions=['3.1'], max_dev=1, static_thin=4),
     'thorough': dict(token_runs=[('all3', 'all', 3), ('core4', 'core', 4)], expr_thin=1, rep_thin=3,
-                     life=dict(Instances={1, 2}, MaxCalls=3), trace_versions=VERSIONS, max_dev=2),
+                     life=dict(Instances={1, 2}, MaxCalls=3), trace_versions=VERSIONS, max_dev=2, static_thin=1),
 }
 
 
@@ -405,7 +416,19 @@ def _classify(e: BaseException):
     return ('escaped', False), type(e).__name__, fingerprint(e)
 
 
-def run_text(version: str, text: str, parser_kwargs: dict | None = None) -> list:
+def _describe(obs: list, things: list) -> None:
+    """The error / description paths of an outcome: str() and repr() of the exception, str(), repr(), .source
+    and .tree of a token.  They build messages from the same tokens and must not raise anything else either."""
+    for label, fn in things:
+        try:
+            fn()
+        except _Hang:
+            raise
+        except BaseException as e:   # noqa
+            obs.append(('eval', 'describe/' + label, *_classify(e)))
+
+
+def run_text(version: str, text: str, parser_kwargs: dict | None = None, contexts=None, describe: bool = True) -> list:
     """Parse `text` with a fresh parser of `version`, evaluate it if it parses.
     Returns observations (phase, detail, shape, identity, fingerprint)."""
     obs = []
@@ -417,11 +440,23 @@ def run_text(version: str, text: str, parser_kwargs: dict | None = None) -> list
                 parser = _W['P'][version](**(parser_kwargs or {}))
                 root = parser.parse(text)
             except BaseException as e:   # noqa
-                signal.alarm(0)
                 obs.append(('parse', '', *_classify(e)))
+                if describe and isinstance(e, _W['EPE']):
+                    phase, detail = 'eval', 'describe'
+                    tok = getattr(e, 'token', None)
+                    things = [('str(error)', lambda: str(e)), ('repr(error)', lambda: repr(e))]
+                    if tok is not None:
+                        things += [('str(error.token)', lambda: str(tok)), ('repr(error.token)', lambda: repr(tok))]
+                    _describe(obs, things)
+                signal.alarm(0)
                 return obs
             obs.append(('parse', '', ('value', False), None, None))
+            phase, detail = 'eval', 'describe'
+            _describe(obs, [] if not describe else [('root.source', lambda: root.source), ('root.tree', lambda: root.tree),
+                            ('str(root)', lambda: str(root)), ('repr(root)', lambda: repr(root))])
             for cname, mk in _W['ctx'].items():
+                if contexts is not None and cname not in contexts:
+                    continue
                 for mode in ('evaluate', 'get_results'):
                     phase, detail = 'eval', f'{cname}/{mode}'
                     try:
@@ -453,12 +488,13 @@ class _Agg:
         self.nontrivial: set = set()     # 64-bit hashes of the distinct non-trivial (version, text) pairs
         self.samples: list = []
 
-    def judge(self, version: str, text: str, origin: dict, parser_kwargs: dict | None = None) -> str:
+    def judge(self, version: str, text: str, origin: dict, parser_kwargs: dict | None = None, contexts=None,
+              describe: bool = True) -> str:
         self.last_parse = None        # 'value' | 'err' when the parse outcome was legal
         if _too_many_hangs():
             self.stats['skipped_after_hangs'] += 1
             return 'skipped'
-        obs = run_text(version, text, parser_kwargs)
+        obs = run_text(version, text, parser_kwargs, contexts, describe)
         if all(o[2] is None or _is_legal(o[0], o[2]) for o in obs) and _lock_hygiene():
             # every call returned or raised legally, yet the process-wide collation lock is still held:
             # the NEXT collation call of this process would block for ever
@@ -513,12 +549,9 @@ class _Agg:
 
 
 def escape_features(kind: str, phase: str, fp: dict) -> dict:
-    """Feature dict of an illegal outcome: one root cause = one class.  The token symbol is part of the
-    class only for RecursionError (the raising function is arbitrary there)."""
-    feat = dict(kind=kind, phase=phase, exc=fp.get('exc'), where=fp.get('where'))
-    if fp.get('where') == 'recursion':
-        feat['sym'] = fp.get('sym')
-    return feat
+    """Feature dict of an illegal outcome: (exception class, raising function, token symbol).  run() merges the
+    classes that match no known finding over the token symbol."""
+    return dict(kind=kind, phase=phase, exc=fp.get('exc'), where=fp.get('where'), sym=fp.get('sym'))
 
 
 def render(seq: tuple) -> list[tuple[str, str]]:
@@ -539,7 +572,7 @@ def seq_worker(job):
             if not text:
                 continue
             for v in VERSIONS:
-                out = agg.judge(v, text, dict(kind='tokens', seq=list(seq), layout=layout))
+                out = agg.judge(v, text, dict(kind='tokens', seq=list(seq), layout=layout), describe=(v == '3.1'))
                 if layout == 'spaced' and gclass != 'open' and out != 'skipped':
                     vn = int(v.replace('.', ''))
                     if gclass == 'ill':
@@ -583,7 +616,7 @@ def mut_worker(job):
                 for pos, w in zip(idx, new_words):
                     out[pos] = w
             mtext = ''.join(out)
-            agg.judge(version, mtext, dict(kind='mutation', expr=text, k=k, mutation=list(m)))
+            agg.judge(version, mtext, dict(kind='mutation', expr=text, k=k, mutation=list(m)), describe=(k % 4 == 0))
     return agg.result()
 
 
@@ -661,7 +694,12 @@ def export_signatures() -> list[tuple[str, list[str]]]:
     from elementpath.xpath31 import XPath31Parser
     out = []
     for (qname, arity), sig in XPath31Parser.function_signatures.items():
-        ptypes = ['xs:anyAtomicType?' if p == '...' else p for p in split_signature(sig)]
+        ptypes = split_signature(sig)
+        if ptypes and ptypes[-1] == '...':      # variadic (fn:concat): the declared arity and three more
+            ptypes = ptypes[:-1]
+            for extra in range(0, 4):
+                out.append((qname.qname, ptypes + [ptypes[-1]] * extra))
+            continue
         out.append((qname.qname, ptypes))
     for cls in set(XPath31Parser.symbol_table.values()):
         if 'constructor' in str(getattr(cls, 'label', '')) and isinstance(getattr(cls, 'symbol', None), str):
@@ -698,6 +736,154 @@ def render_arg(ptype: str, cls: str) -> str:
 
 def render_call(name: str, ptypes, args) -> str:
     return name + '(' + ', '.join(render_arg(t, c) for t, c in zip(ptypes, args)) + ')'
+
+
+W3C_NS = {'fn': 'http://www.w3.org/2005/xpath-functions', 'math': 'http://www.w3.org/2005/xpath-functions/math',
+          'map': 'http://www.w3.org/2005/xpath-functions/map', 'array': 'http://www.w3.org/2005/xpath-functions/array',
+          'xs': 'http://www.w3.org/2001/XMLSchema', 'err': 'http://www.w3.org/2005/xqt-errors'}
+OTHER_NS = 'http://example.com/other'
+FORMS = ["arrow", "ref_call", "let_call", "partial", "partial_last", "apply", "lookup", "arrow_beyond", "ref_beyond",
+         "apply_beyond"]
+NS_CLASSES = ["rebind_math", "rebind_map", "rebind_array", "rebind_fn", "rebind_xs", "rebind_err", "unbind_all", "alias",
+              "fnns_math", "fnns_other", "fnns_empty"]
+
+
+def render_form(name: str, ptypes, form: str) -> str:
+    """1:1 rendering of the call forms of ArgClass.tla with valid arguments."""
+    a = [render_arg(t, 'valid') for t in ptypes]
+    n = len(a)
+    j = ', '.join
+    if form == 'direct':
+        return f'{name}({j(a)})'
+    if form == 'arrow':
+        return f'{a[0]} => {name}({j(a[1:])})'
+    if form == 'ref_call':
+        return f'{name}#{n}({j(a)})'
+    if form == 'let_call':
+        return f'let $f := {name}#{n} return $f({j(a)})'
+    if form == 'partial':
+        return f'{name}({j(["?"] + a[1:])})({a[0]})'
+    if form == 'partial_last':
+        return f'{name}({j(a[:-1] + ["?"])})({a[-1]})'
+    if form == 'apply':
+        return f'fn:apply({name}#{n}, [{j(a)}])'
+    if form == 'lookup':
+        return f"fn:function-lookup(xs:QName('{name}'), {n})({j(a)})"
+    if form == 'arrow_beyond':
+        return f'{a[0] if a else "1"} => {name}({j(a[1:] + ["1"])})'
+    if form == 'ref_beyond':
+        return f'{name}#{n + 1}'
+    if form == 'apply_beyond':
+        return f'fn:apply({name}#{n}, [{j(a + ["1"])}])'
+    raise tla.MachineryError(f'unknown call form {form!r}')
+
+
+def render_static(name: str, ptypes, static: dict) -> tuple[str, dict]:
+    """(text, parser keyword arguments) of a call under a static context class of ArgClass.tla."""
+    prefix, local = name.split(':', 1)
+    ns, sp, kd = static['ns'], static['spelling'], static['kind']
+    if kd == 'unknown_name':
+        local += '-nope'
+    fname = {'prefixed': f'{prefix}:{local}', 'unprefixed': local, 'eqname': 'Q{' + W3C_NS[prefix] + '}' + local}[sp]
+    a = [render_arg(t, 'valid') for t in ptypes]
+    if kd == 'too_many':
+        a = a + ['1']
+    elif kd == 'too_few':
+        a = a[:-1]
+    elif kd == 'zero_args':
+        a = []
+    if ns == 'default':
+        kw = {}
+    elif ns.startswith('rebind_'):
+        kw = dict(namespaces={ns[7:]: OTHER_NS})
+    elif ns == 'unbind_all':
+        kw = dict(namespaces={p: '' for p in W3C_NS})
+    elif ns == 'alias':
+        kw = dict(namespaces={'zz': W3C_NS[prefix]})
+    elif ns == 'fnns_math':
+        kw = dict(function_namespace=W3C_NS['math'])
+    elif ns == 'fnns_other':
+        kw = dict(function_namespace=OTHER_NS)
+    elif ns == 'fnns_empty':
+        kw = dict(function_namespace='')
+    else:
+        raise tla.MachineryError(f'unknown static context class {ns!r}')
+    return f'{fname}({", ".join(a)})', kw
+
+
+def form_worker(job):
+    """job: list of (name, ptypes, form | None, static | None, version)."""
+    agg = _Agg()
+    for name, ptypes, form, static, v in job:
+        if form is not None:
+            agg.judge(v, render_form(name, ptypes, form), dict(kind='call-form', function=name, form=form))
+        else:
+            text, kw = render_static(name, ptypes, static)
+            agg.judge(v, text, dict(kind='static-context', function=name, static=dict(static)), parser_kwargs=kw,
+                      contexts=('doc',))
+    return agg.result()
+
+
+# ---- atomic-value family (spec/AtomicPool.tla) --------------------------------------------------
+
+POOL_LITERAL = {
+    'string': "'a'", 'boolean': 'true()', 'decimal': '1.5', 'integer': '1', 'double': '1.5e0', 'float': "xs:float('1.5')",
+    'anyURI': "xs:anyURI('http://a')", 'language': "xs:language('en')", 'date': "xs:date('2000-01-01')",
+    'dateTime': "xs:dateTime('2000-01-01T10:00:00')", 'dateTimeStamp': "xs:dateTimeStamp('2000-01-01T10:00:00Z')",
+    'time': "xs:time('10:00:00')", 'duration': "xs:duration('P1Y1D')", 'yearMonthDuration': "xs:yearMonthDuration('P1Y')",
+    'dayTimeDuration': "xs:dayTimeDuration('PT1H')", 'gYear': "xs:gYear('2000')", 'gYearMonth': "xs:gYearMonth('2000-01')",
+    'gMonth': "xs:gMonth('--01')", 'gMonthDay': "xs:gMonthDay('--01-01')", 'gDay': "xs:gDay('---01')",
+    'hexBinary': "xs:hexBinary('0A')", 'base64Binary': "xs:base64Binary('AAAA')", 'QName': "xs:QName('xml:a')",
+    'untypedAtomic': "xs:untypedAtomic('a')", 'double-NaN': "xs:double('NaN')", 'double-INF': "xs:double('INF')",
+    'double-negzero': "xs:double('-0')", 'float-NaN': "xs:float('NaN')",
+    'nonPositiveInteger': 'xs:nonPositiveInteger(-1)', 'negativeInteger': 'xs:negativeInteger(-1)',
+}
+for _t in ('normalizedString', 'token', 'NMTOKEN', 'Name', 'NCName', 'ID', 'IDREF', 'ENTITY'):
+    POOL_LITERAL[_t] = f"xs:{_t}('a')"
+for _t in ('long', 'int', 'short', 'byte', 'nonNegativeInteger', 'unsignedLong', 'unsignedInt', 'unsignedShort',
+           'unsignedByte', 'positiveInteger'):
+    POOL_LITERAL[_t] = f'xs:{_t}(1)'
+POOL_USES1 = {
+    'map-key': 'map{V: 1}', 'map-entry': 'map:entry(V, 1)', 'map-put': 'map:put(map{}, V, 1)', 'map-get': 'map:get(map{V: 1}, V)',
+    'map-merge': 'map:merge((map{V: 1}, map{V: 2}))', 'map-contains': 'map:contains(map{V: 1}, V)',
+    'map-remove': 'map:remove(map{V: 1}, V)', 'map-find': 'map:find([map{V: 1}], V)', 'map-call': 'map{V: 1}(V)',
+    'map-lookup': 'map{V: 1}?(V)', 'map-keys': 'map:keys(map{V: 1})', 'array-member': '[V, V]', 'array-get-index': '[1](V)',
+    'union': 'V union V', 'bar': 'V | V', 'intersect': 'V intersect V', 'except': 'V except V',
+    'distinct-values': 'distinct-values((V, V))', 'index-of': 'index-of((V, V), V)', 'deep-equal': 'deep-equal((V), (V))',
+    'sort': 'sort((V, V))', 'sort-key': 'sort((1, 2), (), function($x) { V })', 'min': 'min((V, V))', 'max': 'max((V, V))',
+    'sum': 'sum((V, V))', 'avg': 'avg((V, V))', 'inline-arg': 'function($x) { $x }(V)',
+    'dynamic-call': 'let $f := function($x as xs:anyAtomicType) { $x } return $f(V)', 'string': 'string(V)', 'data': 'data(V)',
+    'boolean': 'boolean(V)', 'instance-of': 'V instance of xs:anyAtomicType', 'cast-string': 'V cast as xs:string',
+    'self-eq': 'V eq V', 'string-join': "string-join((V, V), '-')", 'for-each': 'for-each((V, V), function($x) { $x })',
+    'filter': 'filter((V, V), function($x) { $x = V })', 'predicate': '(V, V)[. = V]',
+}
+POOL_USES2 = {
+    'general-eq': 'V = W', 'general-lt': 'V < W', 'value-eq': 'V eq W', 'value-lt': 'V lt W', 'value-ne': 'V ne W',
+    'plus': 'V + W', 'minus': 'V - W', 'times': 'V * W', 'div': 'V div W', 'deep-equal2': 'deep-equal(V, W)',
+    'index-of2': 'index-of((V), W)', 'distinct-values2': 'distinct-values((V, W))', 'sort2': 'sort((V, W))',
+    'min2': 'min((V, W))', 'two-keys': 'map{V: 1, W: 2}', 'map-merge2': 'map:merge((map{V: 1}, map{W: 2}))',
+    'map-get2': 'map:get(map{V: 1}, W)',
+}
+POOL_REP_TYPES = ['string', 'anyURI', 'boolean', 'decimal', 'integer', 'long', 'float', 'double', 'date', 'dateTime', 'time',
+                  'duration', 'yearMonthDuration', 'dayTimeDuration', 'gYear', 'gYearMonth', 'gMonth', 'gMonthDay', 'gDay',
+                  'hexBinary', 'base64Binary', 'QName', 'untypedAtomic', 'double-NaN', 'double-INF', 'float-NaN']
+POOL_VERSIONS = ['2.0', '3.1']
+
+
+def pool_text(use: str, t1: str, t2: str) -> str:
+    tpl = POOL_USES1.get(use) or POOL_USES2[use]
+    out = re.sub(r'\bV\b', lambda m: POOL_LITERAL[t1], tpl)
+    if t2 != '-':
+        out = re.sub(r'\bW\b', lambda m: POOL_LITERAL[t2], out)
+    return out
+
+
+def pool_worker(job):
+    """job: list of (use, t1, t2, version).  The expressions are constant: one dynamic context is enough."""
+    agg = _Agg()
+    for use, t1, t2, v in job:
+        agg.judge(v, pool_text(use, t1, t2), dict(kind='atomic-pool', use=use, types=[t1, t2]), contexts=('doc',))
+    return agg.result()
 
 
 def call_worker(job):
@@ -1027,14 +1213,16 @@ def run(chk: core.Check) -> None:
     os.makedirs(gen_a, exist_ok=True)
     with open(os.path.join(gen_a, 'C03ArgPlan.tla'), 'w') as fh:
         fh.write('---- MODULE C03ArgPlan ----\n(* generated: arities of the exported signatures (binding C) *)\n'
-                 'EXTENDS Naturals, Sequences, TLC\nCONSTANTS Classes, CollClasses, MaxDev\nVARIABLES sig, args, calls\n')
+                 'EXTENDS Naturals, Sequences, TLC\nCONSTANTS Classes, CollClasses, MaxDev, Forms, NsClasses, Seed, StaticThin\nVARIABLES sig, args, calls, form, static\n')
         fh.write('GenArity == <<' + ', '.join(str(len(p)) for _, p in sigs) + '>>\n')
         fh.write('GenNames == <<' + ', '.join(tla.to_tla(n) for n, _ in sigs) + '>>\n')
-        fh.write('INSTANCE ArgClass WITH Arity <- GenArity, Names <- GenNames\n')
-        fh.write('ASSUME PrintPlanSize == PrintT(<<"plan_size_1", PlanSize1, PlanSizeColl>>)\n====\n')
+        fh.write('GenPrefixes == <<' + ', '.join(tla.to_tla(n.split(':')[0]) for n, _ in sigs) + '>>\n')
+        fh.write('INSTANCE ArgClass WITH Arity <- GenArity, Names <- GenNames, Prefixes <- GenPrefixes\n')
+        fh.write('ASSUME PrintPlanSize == PrintT(<<"plan_size_1", PlanSize1, PlanSizeColl, PlanSizeForms, PlanSizeStatic>>)\n====\n')
     wd = os.path.join(chk.scratch, 'args')
     dot = os.path.join(wd, 'g.dot')
-    cfg = tla.cfg_text(dict(Classes=set(ARG_CLASSES), CollClasses=set(COLL_CLASSES), MaxDev=tier['max_dev']),
+    cfg = tla.cfg_text(dict(Classes=set(ARG_CLASSES), CollClasses=set(COLL_CLASSES), MaxDev=tier['max_dev'],
+                            Forms=set(FORMS), NsClasses=set(NS_CLASSES), Seed=chk.seed % 1000, StaticThin=tier['static_thin']),
                        invariants=['TypeOK', 'Bounded'])
     r = tla.require_ok(tla.run_tlc('C03ArgPlan', cfg, wd, dump_dot=dot, workers=min(PROCS, 8), extra_modules_dir=gen_a), 'ArgClass')
     chk.model('ArgClass', r)
@@ -1042,9 +1230,17 @@ def run(chk: core.Check) -> None:
     g = tla.load_dot(dot)
     os.remove(dot)
     n_edges = len(g.edges)
-    calls = sorted((st['sig'], tuple(st['args']), st['calls']) for st in g.states.values())
+    plain = tla.FrozenDict(ns='default', spelling='prefixed', kind='ok')
+    calls = sorted((st['sig'], tuple(st['args']), st['calls']) for st in g.states.values()
+                   if st['form'] == 'direct' and st['static'] == plain)
+    fcalls = sorted((st['sig'], st['form'], None) for st in g.states.values() if st['form'] != 'direct')
+    scalls = sorted(((st['sig'], None, dict(st['static'])) for st in g.states.values() if st['static'] != plain),
+                    key=lambda x: (x[0], sorted(x[2].items())))
     del g
-    plan1, plan_coll = next(printed(r.output, 'plan_size_1'), (0, 0))
+    plan1, plan_coll, plan_forms, plan_static = next(printed(r.output, 'plan_size_1'), (0, 0, 0, 0))
+    if len(fcalls) != plan_forms or len(scalls) != plan_static or plan_forms < len(sigs) * 5 or plan_static < len(sigs) * 20:
+        raise tla.MachineryError(f'ArgClass plan incomplete: {len(fcalls)} call forms / {len(scalls)} static contexts, '
+                                 f'TLC says {plan_forms} / {plan_static}')
     n1 = sum(1 for _, a, c in calls if c == 1 and sum(x != 'valid' for x in a) <= 1)
     n_again = sum(1 for _, a, c in calls if c == 2 and sum(x != 'valid' for x in a) <= 1)
     if n1 != plan1 + plan_coll or n_again != plan_coll or plan_coll < 10 * len(COLL_CLASSES) \
@@ -1063,11 +1259,58 @@ def run(chk: core.Check) -> None:
         nontrivial |= nontriv
         for s in samples[:1]:
             chk.sample(s, cap=6)
+    fjobs = [(sigs[i - 1][0], sigs[i - 1][1], f, st, v) for i, f, st in fcalls + scalls
+             for v in (VERSIONS if f is not None else (('3.0', '3.1') if st['spelling'] == 'eqname' else ('2.0', '3.1')))]
+    fjobs.sort(key=lambda j: hash((j[0], j[1], j[2], str(j[3]), j[4])) % 1009)
+    for st, fails, nontriv, samples in core.pool_map(form_worker, chunks(fjobs, PROCS * 8), procs=PROCS,
+                                                     initializer=_winit, initargs=initargs):
+        stats.update(st)
+        merge_fails(all_fails, fails)
+        nontrivial |= nontriv
+        for s in samples[:1]:
+            chk.sample(s, cap=7)
+    chk.coverage['call_forms_replayed'] = len(fcalls)
+    chk.coverage['static_context_calls_replayed'] = len(scalls)
     chk.add('transitions', n_edges)
     chk.coverage['function_signatures_exported'] = len(sigs)
     chk.coverage['function_calls_replayed'] = len(calls)
     chk.coverage['collation_calls_made_twice'] = n_again
-    print(f'  ArgClass: signatures={len(sigs)} calls={len(calls)} tlc={r.wall_s:.1f}s replay={time.time() - t0:.1f}s', flush=True)
+    print(f'  ArgClass: signatures={len(sigs)} calls={len(calls)} forms={len(fcalls)} static={len(scalls)} tlc={r.wall_s:.1f}s replay={time.time() - t0:.1f}s', flush=True)
+
+    # ---- 2c. AtomicPool: every atomic type in every hashing / comparing / sorting position ------------
+    t0 = time.time()
+    all_types = sorted(POOL_LITERAL)
+    pool_cfgs = [('all', dict(Types=set(all_types), Uses1=set(POOL_USES1), Uses2=set(POOL_USES2)))] if chk.tier == 'thorough' else \
+                [('one', dict(Types=set(all_types), Uses1=set(POOL_USES1), Uses2={'value-eq'})),
+                 ('two', dict(Types=set(POOL_REP_TYPES), Uses1={'map-key'}, Uses2=set(POOL_USES2)))]
+    pjobs = set()
+    for pname, consts in pool_cfgs:
+        wd = os.path.join(chk.scratch, 'pool_' + pname)
+        dot = os.path.join(wd, 'g.dot')
+        r = tla.require_ok(tla.run_tlc('AtomicPool', tla.cfg_text(consts, invariants=['TypeOK']), wd, dump_dot=dot,
+                                       workers=min(PROCS, 8)), f'AtomicPool/{pname}')
+        chk.model(f'AtomicPool/{pname}', r)
+        g = tla.load_dot(dot)
+        os.remove(dot)
+        plan = next(printed(r.output, 'pool_plan_size'), (0,))[0]
+        if len(g.states) != plan or plan < 500:
+            raise tla.MachineryError(f'AtomicPool plan incomplete: {len(g.states)} states, TLC says {plan}')
+        chk.add('transitions', len(g.edges))
+        for st in g.states.values():
+            if st['use'] != 'none':
+                pjobs.add((st['use'], st['t1'], st['t2']))
+        del g
+    pjobs = sorted((u, a, b, v) for u, a, b in pjobs for v in POOL_VERSIONS)
+    pjobs.sort(key=lambda j: hash(j) % 1009)
+    for st, fails, nontriv, samples in core.pool_map(pool_worker, chunks(pjobs, PROCS * 8), procs=PROCS,
+                                                     initializer=_winit, initargs=initargs):
+        stats.update(st)
+        merge_fails(all_fails, fails)
+        nontrivial |= nontriv
+        for s in samples[:1]:
+            chk.sample(s, cap=8)
+    chk.coverage['atomic_pool_expressions'] = len(pjobs) // len(POOL_VERSIONS)
+    print(f'  AtomicPool: expressions={len(pjobs) // len(POOL_VERSIONS)} x {len(POOL_VERSIONS)} versions  total={time.time() - t0:.1f}s', flush=True)
 
     # ---- 3. ParserLife: model, self-tests, histories ------------------------------------
     wd = os.path.join(chk.scratch, 'life')
@@ -1336,8 +1579,19 @@ def run(chk: core.Check) -> None:
     print(f'  traces: {len(side)} traces, {n_events} events, rejected events={sum(rejected.values())} tlc={r.wall_s:.1f}s', flush=True)
 
     # ---- 7. verdicts and bookkeeping ------------------------------------------------------
+    # the token symbol is a feature only so that known findings can be narrow; classes that match no known
+    # finding are merged over it (one root cause = one VIOLATION class), except for RecursionError
+    merged: dict = {}
     for key in sorted(all_fails):
-        report(chk, all_fails[key])
+        ent = all_fails[key]
+        jf = core.jsonable(ent[0])
+        if 'sym' in jf and jf.get('where') != 'recursion' and \
+                not any(core.match_pattern(k['fingerprint'], jf) for k in chk.known):
+            ent = [dict(ent[0]), *ent[1:]]
+            ent[2] = dict(ent[2], token_symbol=ent[0].pop('sym'))
+        merge_fails(merged, [ent])
+    for key in sorted(merged):
+        report(chk, merged[key])
     chk.add('distinct_nontrivial', len(nontrivial))
     chk.add('evaluations', stats.get('evaluations', 0))
     chk.coverage['outcome_counts'] = {k: v for k, v in sorted(stats.items()) if k != 'evaluations'}
